@@ -422,6 +422,12 @@ def r18_5(ctx: Ctx):
     from . import c06
 
     out = []
+    from . import c03
+
+    # a child that evaluates through its (possibly hibernating) parent's wrapper makes the sleeping parent's counter grow
+    for o in c03.r03_11(ctx):
+        o.rule = "R18.5"
+        out.append(o)
     for o in c06.r06_6(ctx):
         o.rule = "R18.5"
         out.append(o)
@@ -491,6 +497,50 @@ def r18_7(ctx: Ctx):
     return [ctx.ob("R18.7", gs, rets[0], status=st, detail="only parents with at least one remaining candidate are returned" if st == OK else why, construct="drop-empty")]
 
 
+def r18_8(ctx: Ctx):
+    """R18.8 with the option on, every sprouting round ends with the flag round: no path leaves run_sprout between _do_sprout and the loop that rewrites the flags."""
+    f = ctx.prog.own_method("DemeTree", "run_sprout")
+    cfg = ctx.cfg(f)
+    do_sprout = ctx.prog.own_method("DemeTree", "_do_sprout")
+    sprout_nodes = [n for n in cfg.nodes if n.ast is not None and calls_method(n.ast, ctx, f, do_sprout)]
+    if not sprout_nodes:
+        raise AnalysisError("run_sprout no longer calls _do_sprout")
+    stores = [n for n in cfg.nodes if n.kind == "stmt" and isinstance(n.ast, ast.Assign) and any(isinstance(t, ast.Attribute) and t.attr == "_hibernating" for t in n.ast.targets)]
+    loops = []
+    for n in stores:
+        L = cfg.loop_of(n)
+        if L is not None and L["head"] not in loops:
+            loops.append(L["head"])
+    if not loops:
+        return [ctx.ob("R18.8", f, f.node, status=INCONCLUSIVE, detail="no loop writing the hibernation flag", construct="flag-round")]
+    opt_defs = {name for name, ds in local_defs(f).items() if ds and all(_mentions_option(d) for d in ds if not isinstance(d, ast.AugAssign))}
+    bad = []
+
+    # state: "PRE" (before sprouting) | "PENDING" (sprouted, flags not yet rewritten) | "DONE" | "OFF" (option known off)
+    def node_fn(n, s):
+        if n in sprout_nodes:
+            return ["PENDING"]
+        if n in loops and s == "PENDING":
+            return ["DONE"]
+        return [s]
+
+    def edge_fn(n, lab, s):
+        if n.kind == "cond" and lab in (True, False) and s == "PENDING":
+            e = n.ast
+            if _mentions_option(e):
+                o = _option_outcome(n, lab)
+                if o is False:
+                    return "OFF"
+            elif isinstance(e, ast.Name) and e.id in opt_defs and lab is False:
+                return "OFF"
+        return s
+
+    at, exits, parent = typestate(cfg, ["PRE"], node_fn, edge_fn)
+    if "PENDING" in exits:
+        return [ctx.ob("R18.8", f, f.node, status=VIOLATION, detail="a path leaves run_sprout after _do_sprout without rewriting the hibernation flags although the option is not known to be off: a deme the round sprouted from stays asleep (or an idle one stays awake)", witness=witness_path(cfg, parent, cfg.exit.id, "PENDING"), construct="flag-round")]
+    return [ctx.ob("R18.8", f, f.node, detail="every path after _do_sprout rewrites the flags unless the option is off", construct="flag-round")]
+
+
 RULES = [
     ("R18.1", r18_1, 1),
     ("R18.2", r18_2, 2),
@@ -499,4 +549,5 @@ RULES = [
     ("R18.5", r18_5, 10),
     ("R18.6", r18_6, 2),
     ("R18.7", r18_7, 1),
+    ("R18.8", r18_8, 1),
 ]
